@@ -1,4 +1,5 @@
 import RulioProofs.StateC02
+import RulioProofs.ComposeState
 
 /-! # C02 — fact search returns exactly the stored facts that match; get; ids (property theorems only)
 
@@ -224,3 +225,83 @@ example : ∃ σ, pmv σ (.obj (depPat "b")) (.obj [("deleteWith", J.arr [.str "
   obtain ⟨σ, hσ⟩ := matcherSound_depPat "b" (by decide +kernel) [("deleteWith", J.arr [.str "b", .str "zz"])] [[]]
     (by rw [matchesJ_depPat "b" (by decide +kernel)]; rfl) (by simp)
   exact ⟨σ, hσ, by decide +kernel⟩
+
+/-! ## search = specification, the matcher hypothesis discharged by C05 (composition)
+
+`search_exact_partial` above takes matcher soundness (`MatcherSoundOn`) and "the specification does not fail" as
+hypotheses.  Both follow from C05 (`match_sound`, `match_ok`; `RulioProofs/ComposeMatch.lean`) for
+* a pattern of the matcher fragment, `patOK (.obj p)` (constant keys, no optional variable, at most one variable
+  and pairwise distinct scalar constants per array) — this implies `TermOK p` (`patOK_termOK`);
+* a **linear** pattern, `linearPattern p` (no variable occurs twice): C05's soundness needs every variable that
+  occurs more than once to be bound to a scalar (`scalarRepeatsIn`; outside, `repeated_var_structured_counterexample`
+  of C05 applies), and for a linear pattern with empty incoming bindings there is no such variable;
+* stored facts of the data fragment, `FactsOK s` (ground, scalars of one array pairwise distinct — facts come from
+  decoded JSON), or the weaker `FactsOKFor s.facts p` which also tolerates stored facts that are not ground data
+  (rules whose `when` holds variables) as long as the matcher plainly answers "no match" on them.
+
+Hypotheses that remain: `WF s` (true of every reachable state: `reachable_wf`, `search_exact_reachable`),
+`NoneExpired s now` (an expired candidate is purged first, with its cascade: C07/C08), and the three fragment
+hypotheses above. -/
+
+/-- **search_exact (indexed).** For a linear pattern of the matcher fragment and stored facts of the data fragment,
+in a well-formed indexed state without expired facts: the specification does not fail, and the indexed search
+returns exactly its (id, bindings) pairs — no more, no fewer — up to order, leaving the state unchanged. -/
+theorem search_exact (s : St) (now : Int) (p : Obj)
+    (hk : s.kind = .indexed) (hwf : WF s) (hne : NoneExpired s now)
+    (hp : patOK (.obj p) = true) (hlin : linearPattern p = true) (hF : FactsOKFor s.facts p) :
+    ∃ R R', specSearch s.facts p now = .ok R ∧ s.searchOK p now = (s, .ok R') ∧ (projRes R').Perm R := by
+  obtain ⟨R, hR⟩ := specSearch_total hp hF now
+  obtain ⟨R', h1, h2⟩ := search_exact_partial s now p R hk hwf hne (patOK_termOK hp)
+    (matcherSoundOn_of_frag hp hlin hF) hR
+  exact ⟨R, R', hR, h1, h2⟩
+
+/-- **search_exact for every reachable indexed state**: after any history of `add` / `rem` (with its cascade) /
+`get` / `search` / `findRules` / `clear` on the indexed state (`IReach`; well-formedness is derived, `ireach_wf`),
+with the public recursion budget `St.search` uses. -/
+theorem search_exact_reachable (s : St) (h : IReach s) (now : Int) (p : Obj) (hne : NoneExpired s now)
+    (hp : patOK (.obj p) = true) (hlin : linearPattern p = true) (hF : FactsOK s) :
+    ∃ R R', specSearch s.facts p now = .ok R ∧ s.search p now = (s, .ok R') ∧ (projRes R').Perm R := by
+  obtain ⟨hwf, hk⟩ := ireach_wf h
+  exact search_exact s now p hk hwf hne hp hlin (hF.for p)
+
+/-- **indexed = linear = specification.** On the same stored facts, an indexed and a linear state both answer the
+specification: the linear one literally, the indexed one up to order.  No matcher hypothesis. -/
+theorem search_exact_both_kinds (si sl : St) (now : Int) (p : Obj)
+    (hki : si.kind = .indexed) (hkl : sl.kind = .linear) (hfacts : si.facts = sl.facts)
+    (hwi : WF si) (hwl : WF sl) (hni : NoneExpired si now)
+    (hp : patOK (.obj p) = true) (hlin : linearPattern p = true) (hF : FactsOKFor si.facts p) :
+    ∃ R Ri Rl, specSearch si.facts p now = .ok R ∧ si.searchOK p now = (si, .ok Ri) ∧
+      sl.searchOK p now = (sl, .ok Rl) ∧ projRes Rl = R ∧ (projRes Ri).Perm R := by
+  obtain ⟨R, Ri, hR, h1, h2⟩ := search_exact si now p hki hwi hni hp hlin hF
+  have hnl : NoneExpired sl now := fun e he => hni e (hfacts ▸ he)
+  obtain ⟨r, h3, h4⟩ := (search_linear_exact sl now p hkl hwl hnl).1
+  rw [← hfacts, hR] at h4
+  cases r with
+  | error e => cases h4
+  | ok Rl =>
+    simp only [Except.map] at h4
+    injection h4 with h4
+    exact ⟨R, Ri, Rl, hR, h1, h3, h4, h2⟩
+
+/-- the pattern `{"deleteWith":["?d","b"]}` (a variable next to a constant in an array) on the history `searchOps` -/
+def searchPatVar : Obj := [("deleteWith", .arr [.str "?d", .str "b"])]
+
+/-- non-vacuity: the hypotheses of `search_exact` hold for the reachable indexed state of `searchOps` (an overwrite,
+a generated id, a property fact) and a pattern with a variable next to a constant in an array; so its conclusion
+holds there: the indexed search answers the specification -/
+example :
+    (WF (St.run { kind := .indexed } searchOps) ∧ NoneExpired (St.run { kind := .indexed } searchOps) 0 ∧
+     patOK (.obj searchPatVar) = true ∧ linearPattern searchPatVar = true ∧
+     FactsOK (St.run { kind := .indexed } searchOps)) ∧
+    ∃ R R', specSearch (St.run { kind := .indexed } searchOps).facts searchPatVar 0 = .ok R ∧
+      (St.run { kind := .indexed } searchOps).searchOK searchPatVar 0 = (St.run { kind := .indexed } searchOps, .ok R') ∧
+      (projRes R').Perm R := by
+  have hyps : WF (St.run { kind := .indexed } searchOps) ∧ NoneExpired (St.run { kind := .indexed } searchOps) 0 ∧
+      patOK (.obj searchPatVar) = true ∧ linearPattern searchPatVar = true ∧
+      FactsOK (St.run { kind := .indexed } searchOps) := by
+    refine ⟨run_wf (wf_empty _) _, noneExpired_of_check (by decide +kernel), by decide +kernel, by decide +kernel, ?_⟩
+    intro e he
+    have : (St.run { kind := .indexed } searchOps).facts.all (fun e => dataOK (.obj e.2)) = true := by decide +kernel
+    exact List.all_eq_true.1 this e he
+  exact ⟨hyps, search_exact _ 0 searchPatVar (run_kind _ _) hyps.1 hyps.2.1 hyps.2.2.1 hyps.2.2.2.1
+    (hyps.2.2.2.2.for _)⟩
